@@ -290,9 +290,14 @@ UNITS.append(ComputeHashAndSize())
 # ----------------------------------------------------------------------------- ObjectWriter
 def loose_path_spec(loose_folder, n, k):
     """The loose path of key k under prefix length n, as the property states it (loose/<prefix>/<rest>)."""
+    import z3
     k = SStr.of(k)
+    n = SInt.of(n)
+    # raw extractions (no side-condition proving: path components are only ever compared, never measured)
+    first = SStr(z3.SubString(k.t, z3.IntVal(0), n.t))
+    second = SStr(z3.SubString(k.t, n.t, z3.simplify(z3.Length(k.t) - n.t)))
     return NS(flat=FS.PathVal(loose_folder.base, loose_folder.parts + (k,)),
-              sharded=FS.PathVal(loose_folder.base, loose_folder.parts + (k.slice(0, n), k.slice(n, None))))
+              sharded=FS.PathVal(loose_folder.base, loose_folder.parts + (first, second)))
 
 
 def loose_pid(loose_folder, n, k):
